@@ -24,6 +24,11 @@ func (c *IContext) Cancel() {
 	c.p.canceled = true
 }
 
+// Activate 重新应用接口代理之后, 上下文重新生效
+func (c *IContext) Activate() {
+	c.p.canceled = false
+}
+
 // Canceled 是否已经被取消
 func (c *IContext) Canceled() bool {
 	return c.p.canceled
